@@ -1122,6 +1122,10 @@ func TestVF_C14(t *testing.T) {
 	seed := vfSeed()
 	rng := vfNewRng(vfCaseSeed(seed, "C14", 0))
 	dir := t.TempDir()
+	if k := os.Getenv("VF_KEEP_DIR"); k != "" {
+		dir = k
+		_ = os.MkdirAll(dir, 0o755)
+	}
 	ports := vfnFreePorts()
 	now := time.Now().Unix()
 	w := &c14World{ports: ports, unknownH: rng.Bytes(32)}
